@@ -43,5 +43,7 @@ def main():
         if p.returncode != 0:
             print('setup: libmon build FAILED')
             return 2
+    from . import selftest
+    rc = selftest.main()
     print('setup done in %.0fs' % (time.time() - t0))
-    return 0
+    return rc
